@@ -189,6 +189,61 @@ def compare_group_dates(res, jid, xs, agg, main):
             break
 
 
+# include globs: (pattern, names it must read, names in the same directory it must leave alone)
+GLOBS = [('tx*.dat', ['tx.dat', 'tx1.dat', 'tx22.dat', 'tx.a.dat'], ['ty1.dat', 'tx1.dat.bak', 'atx1.dat', 'tx1xdat', 'tx']),
+         ('p?.dat', ['p1.dat', 'pa.dat', 'p-.dat'], ['p.dat', 'p12.dat', 'q1.dat', 'p1xdat']),
+         ('*.inc', ['a.inc', 'b.c.inc', '.inc'], ['a.inc2', 'ainc', 'a.dat']),
+         ('f.dat', ['f.dat'], ['fxdat', 'f.dat2', 'ff.dat', 'f_dat']),
+         ('a+b.dat', ['a+b.dat'], ['aab.dat', 'ab.dat', 'a+bxdat']),
+         ('x(1).dat', ['x(1).dat'], ['x1.dat', 'x(1)xdat']),
+         ('y{2}|z.dat', ['y{2}|z.dat'], ['yy.dat', 'z.dat', 'y{2}']),
+         ('m*n?.dat', ['mn1.dat', 'mxxn2.dat', 'm.n.n3.dat'], ['mn.dat', 'mxn12.dat', 'xmn1.dat'])]
+
+
+def write_glob_tree(ctx, rng, xs, name, res):
+    """the transactions cut into files that ONE include with a glob in its file name reads (in the sorted order of their
+    names), beside files whose names the pattern must not match and which hold a transaction of their own; which names
+    are read is what the model of the glob says (Model/Glob.v), and it must be what this table expects
+    -> (main path, tree for the model)"""
+    root = ctx.path(name)
+    shutil.rmtree(root, ignore_errors=True)
+    os.makedirs(os.path.join(root, 'parts'))
+    pat, yes, no = rng.choice(GLOBS)
+    names = yes + no
+    verdict = {}
+    for l in lib.run_model('C08', [lib.sx(['glob', 'g', pat.encode()] + [n.encode() for n in names])]):
+        f = l.split(' ')
+        if len(f) == 4 and f[1] == 'G':
+            verdict[bytes.fromhex(f[2]).decode()] = f[3] == '1'
+    res.traces += 1
+    if [n for n in names if verdict.get(n)] != yes:
+        res.disagreements.append(dict(name='C08/glob-table', case=pat, impl='expected to read %s' % yes, model=str(verdict)))
+    read = sorted(n for n in names if verdict.get(n))
+    k = min(len(read), max(1, len(xs) - 1))
+    read = sorted(rng.sample(read, k)) if rng.random() < 0.5 else read        # not every matching name need exist
+    if pat.count('*') and (pat.replace('*', '') in yes) and pat.replace('*', '') not in read:
+        read = sorted(read[:-1] + [pat.replace('*', '')]) if len(read) > 1 else [pat.replace('*', '')]
+    head = xs[:1] if rng.random() < 0.5 else []
+    rest = xs[len(head):]
+    cuts = sorted(rng.sample(range(1, len(rest)), min(len(read) - 1, max(0, len(rest) - 1)))) if len(rest) > 1 else []
+    pieces, prev = [], 0
+    for c in cuts + [len(rest)]:
+        pieces.append(rest[prev:c])
+        prev = c
+    while len(pieces) < len(read):
+        pieces.append([])
+    tree = [x.sx() for x in head]
+    for n, piece in zip(read, pieces):
+        open(os.path.join(root, 'parts', n), 'w').write('\n'.join(x.text(x.orig) for x in piece) + '\n' if piece else '; nothing here\n')
+        tree.append(['include'] + [x.sx() for x in piece])
+    for i, n in enumerate(no):
+        open(os.path.join(root, 'parts', n), 'w').write('2020/01/01 decoy%d\n    Decoy:%d    $%d.00\n    Decoy:Other\n' % (i, i, 1000 + i))
+    main = os.path.join(root, 'main.dat')
+    open(main, 'w').write('\n'.join(x.text(x.orig) for x in head) + '\n\ninclude parts/%s\n' % pat)
+    res.count('include-glob:' + pat)
+    return main, tree
+
+
 def run_variant(ctx, main):
     LOTS = {}
     st, out, err = lib.run_ledger(['-f', main, 'bal', '--flat', '--empty', '--no-total', '--format', BAL])
@@ -297,10 +352,13 @@ def run(ctx, n_override=None):
             variants.append(('pperm', v, False))
         for _ in range(2):
             variants.append(('split', list(base), True))
+        variants.append(('split-glob', list(base), 'glob'))
         ref = None
         for vi, (kind, xs, split) in enumerate(variants):
             name = 'v%d' % (vi % 3)
-            if split:
+            if split == 'glob':
+                main, tree = write_glob_tree(ctx, rng, xs, name, res)
+            elif split:
                 main, tree = write_tree(ctx, rng, xs, name)
             else:
                 root = ctx.path(name)
